@@ -698,7 +698,8 @@ Hypotheses, and the guard of the code (or the silence of the specification) each
   `match_input` refuses to ligate across components of different earlier ligatures, which the OpenType text does not know).
 * `c.perSyllable = false` — `match_input` stops at syllable borders for per-syllable features (Indic shapers only).
 * `LigsShort` — a ligature has at most 63 components behind the first glyph: `match_input` gives up on longer inputs
-  (`MAX_CONTEXT_LENGTH = 64`); the specification has no such limit.
+  (`MAX_CONTEXT_LENGTH = 64`); the specification has no such limit (replayed on the crate: a ligature of 1 + 64 glyphs is not
+  formed, one of 1 + 63 glyphs is).
 * `c.buf.level ≠ 2` — cluster levels 0 / 1 (level 2 does not merge; it flags the span unsafe-to-break instead).
 * `NonDecr ∨ NonIncr` — cluster values are monotone along the buffer (what HarfBuzz maintains at levels 0 / 1).
   `merge_clusters` extends the merged span over the adjacent RUNS of the first / last component's cluster, the
